@@ -90,7 +90,7 @@ def mexprs_for(cg, T, deep=True):
 BIN_PREDS = ["before", "after", "inside", "direct_child", "same_position", "different_position", "consecutive"]
 
 
-def atoms(cg, scope, numerals, level_nts, full=True):
+def atoms(cg, scope, numerals, level_nts, full=True, with_root=False):
     """atoms over the variables in scope: list of (name, type)."""
     out = []
     vs = [(v, t) for v, t in scope if v != "start"]
@@ -105,6 +105,14 @@ def atoms(cg, scope, numerals, level_nts, full=True):
             out.append(("smt", [">=", ["str.to.int", ["v", v]], ["i", 1]]))
             if full:
                 out.append(("smt", ["=", ["str.to.int", ["v", v]], ["i", 10]]))
+    if with_root:
+        # the root (the constant) as a predicate argument
+        for v, t in vs[:1]:
+            out.append(("pred", "inside", (), v, "start"))
+            out.append(("pred", "direct_child", (), v, "start"))
+            out.append(("pred", "before", (), "start", v))
+            out.append(("pred", "same_position", (), "start", v))
+            out.append(("pred", "nth", (1,), v, "start"))
     for (a, ta), (b, tb) in itertools.permutations(vs, 2):
         if a < b:
             out.append(("smt", ["=", ["v", a], ["v", b]]))
@@ -145,10 +153,22 @@ def universe(cg, profile="std", level_nts=(), needles=None, types=None):
     def q(kind, T, var, m, in_var, body):
         return (kind, T, var, m, in_var, body)
 
+    # --- atoms over the constant itself (a tree that arrives by substitution, not through a quantifier)
+    words = terminals_of(cg, "<start>", 6)
+    lens = sorted({len(w) for w in words})[:3] or [1]
+    start_atoms = [("smt", ["=", ["str.len", ["v", "start"]], ["i", n]]) for n in lens]
+    start_atoms += [("smt", ["<=", ["str.len", ["v", "start"]], ["i", lens[-1]]])]
+    start_atoms += [("smt", ["=", ["v", "start"], ["s", w]]) for w in words[:2]]
+    for at_ in start_atoms:
+        F.append(at_)
+        F.append(("not", at_))
+    for T in types[:2]:
+        F.append(q("forall", T, "a", None, "start", ("or", start_atoms[0], ("smt", ["=", ["str.len", ["v", "a"]], ["i", 1]]))))
+        F.append(q("exists", T, "a", None, "start", ("and", start_atoms[-1], ("smt", ["=", ["str.len", ["v", "a"]], ["i", 1]]))))
     # --- one quantifier, no match expression
     for T in types:
         sc = [("start", "<start>"), ("a", T)]
-        ats = atoms(cg, sc, numerals, level_nts, full) + count_atoms(cg, [("a", T)], needles[:2])
+        ats = atoms(cg, sc, numerals, level_nts, full, with_root=True) + count_atoms(cg, [("a", T)], needles[:2])
         for at_ in ats:
             for kind in ("forall", "exists"):
                 F.append(q(kind, T, "a", None, "start", at_))
@@ -157,7 +177,7 @@ def universe(cg, profile="std", level_nts=(), needles=None, types=None):
             F.append(("not", q("exists", T, "a", None, "start", at_)))
     # --- one quantifier with match expression
     for T in types:
-        for m, binds in mexprs_for(cg, T, deep=full):
+        for m, binds in mexprs_for(cg, T, deep=True):
             sc = [("a", T)] + binds
             ats = atoms(cg, sc, numerals, level_nts, False)
             if not binds:
